@@ -156,3 +156,47 @@ func (cr *checkRun) onlyExternal(name string, root string, allow []string) {
 		o.Replayed = true
 	}
 }
+
+// ghostsTouchedByBody: the ghost variables that executing fn's body may change, i.e. the
+// ghost-set variables of the contracts of everything called from fn or from any repository
+// function reachable from it (interface methods with an assumed contract included). fn's own
+// ghost-set clauses are not part of it (they are applied on top at its call sites).
+func (e *Engine) ghostsTouchedByBody(fn *ssa.Function) map[string]bool {
+	if e.ghostMemo == nil {
+		e.ghostMemo = map[*ssa.Function]map[string]bool{}
+	}
+	if g, ok := e.ghostMemo[fn]; ok {
+		return g
+	}
+	out := map[string]bool{}
+	e.ghostMemo[fn] = out
+	if len(e.ghosts) == 0 {
+		return out
+	}
+	fns, _, _ := e.reachable(fn)
+	for f := range fns {
+		for _, b := range f.Blocks {
+			for _, ins := range b.Instrs {
+				ci, ok := ins.(ssa.CallInstruction)
+				if !ok {
+					continue
+				}
+				cc := ci.Common()
+				var c *Contract
+				if cc.IsInvoke() {
+					c = e.ifaceContract(cc)
+				} else if callee, ok := cc.Value.(*ssa.Function); ok {
+					c = e.contractFor(callee)
+				} else if mc, ok := cc.Value.(*ssa.MakeClosure); ok {
+					c = e.contractFor(mc.Fn.(*ssa.Function))
+				}
+				if c != nil {
+					for _, g := range c.GhostUpd {
+						out[g.Var] = true
+					}
+				}
+			}
+		}
+	}
+	return out
+}
